@@ -159,6 +159,35 @@ def _same18(x):
     return x
 
 
+def intlike_key_family(ld, r, count):
+    """sort() without a key function sorts by the example KEYS as strings - also when the keys look like integers ('2', '0', '-1',
+    '10'); a selection by such keys selects by key, not by position"""
+    fails = []
+    for _ in range(count):
+        n = r.randint(1, 7)
+        pool = [str(x) for x in r.sample(range(-2, 12), n)]
+        vals = {k: 100 + i for i, k in enumerate(pool)}
+        ds = ld.new(dict(vals))
+        rev = r.random() < 0.4
+        stack = r.choice(['plain', 'map', 'sorted_first'])
+        d = ds if stack == 'plain' else ds.map(_same18) if stack == 'map' else ds.sort(lambda v: -v)
+        try:
+            s_ = d.sort(reverse=rev)
+            got = (list(s_.keys()), list(s_))
+            want_keys = sorted(pool, reverse=rev)
+            sel_keys = r.sample(pool, r.randint(1, n))
+            sel = d[sel_keys]
+            got_sel = (list(sel.keys()), list(sel))
+        except Exception as e:
+            fails.append(f'sort() / selection by keys over the integer-like keys {pool} raised {type(e).__name__}: {e}'[:300])
+            continue
+        if got != (want_keys, [vals[k] for k in want_keys]):
+            fails.append(f'sort(reverse={rev}) by example keys over {vals} ({stack}): keys {got[0]}, examples {got[1]}; expected the keys in string order {want_keys}')
+        elif got_sel != (sel_keys, [vals[k] for k in sel_keys]):
+            fails.append(f'selection by the keys {sel_keys} over {vals} ({stack}): keys {got_sel[0]}, examples {got_sel[1]}')
+    return fails
+
+
 class _FalsyKey:
     """a key function object whose truth value is False (a memoising callable whose len() is the size of its still empty memo, a
     callable with __bool__): it is still THE key function"""
@@ -264,6 +293,8 @@ def run(tier):
         res['failures'].append(dict(kind='program', summary=msg[:600]))
     res['coverage']['groupby_arbitrary_id_cases'] = 3000 if big else 300
     for msg in falsy_key_fn_family(ld, common.rng_for('C18-falsykey'), 600 if big else 60):
+        res['failures'].append(dict(kind='program', summary=msg[:600]))
+    for msg in intlike_key_family(ld, common.rng_for('C18-intkeys'), 1500 if big else 150):
         res['failures'].append(dict(kind='program', summary=msg[:600]))
     res['coverage'].update(groupby_cases=len(gc), groupby_disagreements=len(bad),
                            groupby_refused=sum(1 for c in gc if c[2] is None))
